@@ -47,7 +47,8 @@ inductive Op (F : Type) where
   have the event values `Xs` -/
   | evaluate (ns : F) (f : List F) (Xs : List (List F))
   /-- an `evaluate` that raises inside the first single llh ratio after the services were updated (e.g. a PDF ratio
-  raising): every single llh ratio it entered has forgotten its cache -/
+  raising): that llh ratio has forgotten its cache (`self._cache_nsgrad_i = None` is the first statement of
+  `evaluate`), the later ones were not entered and keep theirs -/
   | evaluateFail (f : List F)
   /-- `calculate_ns_grad2(ns)` -/
   | grad2 (ns : F)
@@ -97,7 +98,11 @@ def step (opa : F) (m : Multi F) : Op F → Multi F × Except Err (Option F)
              { fs.2 with cache := some (X.map (nsGradI opa (ns * fs.1))) }) (List.zip f m.singles) Xs },
        .ok none)
   | .evaluateFail f =>
-      ({ f := some f, singles := m.singles.map (fun s => { s with cache := none }) }, .ok none)
+      ({ f := some f
+         singles := match m.singles with
+           | [] => []
+           | s :: rest => { s with cache := none } :: rest },
+       .error .notEvaluated)
   | .grad2 ns =>
       (m, match m.grad2 ns with
           | .error e => .error e
